@@ -1,4 +1,17 @@
 """Per-property wording for MANIFEST.json (levels, trusted base) and the hook commits."""
+import os, sys
+sys.path.insert(0, os.path.dirname(os.path.abspath(__file__)))
+from props import PROPS
 HOOK_COMMITS = ["31cbb23"]
-NOTES = {}
 NOT_APPLICABLE = {}
+NOTES = {}
+for pid, sp in PROPS.items():
+    mcs = "; ".join(m.get("constants", "") for m in sp.get("mc", []) if m.get("constants"))
+    NOTES[pid] = {
+        "note": "Trusted / assumed: " + "; ".join(sp.get("assumptions", [])) + ". Exhaustive (a) runs: " + (mcs or "none") + ".",
+        "technique": ("TLA+ spec + TLC: exhaustive small-scope model checking, TLC-generated steps replayed on the real code, "
+                      "real-code traces validated line by line by TLC") if sp.get("level", "model_checking") == "model_checking"
+                     else "real-code traces validated by TLC against the TLA+ acceptance predicate (numeric residuals measured by the harness)",
+    }
+NOTES["C18"]["text"] = ("Exploration: every recorded projection call (EPSG:3857 numerics, every bundled EPSG code structurally, unknown codes) is accepted or "
+                        "rejected by TLC against the TLA+ predicate X_Project; the numeric residuals are measured by the harness, so this is not claimed as model checking.")
